@@ -10,13 +10,15 @@ use std::collections::BTreeSet;
 use std::sync::atomic::{AtomicU64, Ordering};
 use std::sync::{Arc, Mutex};
 
-const CALLS: [(&str, &str); 6] = [
+const CALLS: [(&str, &str); 8] = [
   ("All", r#"{A: 5, S: "abcz"}"#),
   ("Quote", r#"{A: 500, S: "xyz"}"#),
   ("All", r#"{A: 42, S: "aeiouz"}"#),
   ("Quote", r#"{A: 5, S: "abcz"}"#),
   ("All", r#"{A: 500, S: "xyz"}"#),
   ("Quote", r#"{A: 42, S: "aeiouz"}"#),
+  ("Many", r#"{S: "abcz"}"#),
+  ("Many", r#"{S: "xyz"}"#),
 ];
 
 fn ctx(text: &str) -> FeelContext {
